@@ -91,6 +91,8 @@ def check_C02(tier, seed):
         kinds[k] = kinds.get(k, 0) + 1
     run_workflow(out, "C02", tier)
     run_mb_traces(out, tier)
+    from .checks_lifecycle import run_lifecycle_traces
+    run_lifecycle_traces(out, "C02", tier)
     out.exhaustive = True
     out.assumptions += [
         "workflow engine: the library's own how-to system (spec/Workflow.tla) with FORMAL parameters: TLC proves the balance of process_a "
@@ -135,6 +137,8 @@ def check_C18(tier, seed):
     for v in vectors:
         k = v["op"] + ("/error" if v["res"]["error"] else "/ok")
         kinds[k] = kinds.get(k, 0) + 1
+    from .checks_lifecycle import run_lifecycle_traces
+    run_lifecycle_traces(out, "C18", tier)
     out.exhaustive = True
     out.assumptions += [
         "thorough tier: additionally the full cross product of 3 process lists x lists of two or three distinct valid flow templates x 3 naming "
